@@ -71,6 +71,87 @@ def concat_designs():
         yield ("concat/" + "+".join(f"[{a}:{a + w}]" for a, w in parts), mk(parts))
 
 
+def bundle_ref_designs():
+    """references to nested bundle members whose names recur at other levels of the bundle (root `valid`, `tx.valid`,
+    `tx.inner.valid`), each on a probe of its own - also through a child's bundle port"""
+    import hdl21 as h
+
+    def mk(depth, via_port, order):
+        def b():
+            T = h.ExternalModule(name="BProbe", port_list=[h.Inout(name="t")], desc="", domain="cc")
+            Deep = h.Bundle(name="DeepB")
+            Deep.add(h.Signal(name="valid"))
+            Deep.add(h.Signal(name="data", width=2))
+            Sub = h.Bundle(name="SubB2")
+            Sub.add(h.Signal(name="valid"))
+            Sub.add(Deep(), name="inner")
+            Link = h.Bundle(name="LinkB")
+            parts = [lambda: Link.add(h.Signal(name="valid")), lambda: Link.add(Sub(), name="tx"),
+                     lambda: Link.add(Sub(), name="rx"), lambda: Link.add(h.Signal(name="tx_valid"))]
+            for k in order:
+                parts[k]()
+
+            def wire(m, link):
+                refs = [link.valid, link.tx.valid, link.rx.valid, link.tx_valid]
+                if depth > 1:
+                    refs += [link.tx.inner.valid, link.rx.inner.valid, link.tx.inner.data[0], link.rx.inner.data[1]]
+                for k, r in enumerate(refs):
+                    m.add(T()(t=r), name=f"pr{k}")
+            if not via_port:
+                m = h.Module(name="BRef")
+                m.link = Link()
+                wire(m, m.link)
+                return m
+            c = h.Module(name="BRefChild")
+            c.link = Link(port=True)
+            wire(c, c.link)
+            m = h.Module(name="BRefTop")
+            m.link = Link()
+            m.c = c(link=m.link)
+            wire(m, m.link)
+            return m
+        return b
+    import itertools as it
+    for depth in (1, 2):
+        for via_port in (False, True):
+            for order in ((0, 1, 2, 3), (3, 2, 1, 0), (1, 0, 3, 2)):
+                yield (f"bundleref/depth{depth}/{'port' if via_port else 'local'}/{order}", mk(depth, via_port, order))
+
+
+def portref_slice_designs():
+    """a 4-bit port of a child tied to (a piece of) a 6-bit bus, and another device connected to a slice of the REFERENCE
+    `child.p[...]`: every int index and every slice with steps +-1, +-2, for referents that start at bit 0, higher, run
+    backwards, or are concatenations; one probe per bus bit"""
+    import hdl21 as h
+    referents = {"whole4": lambda m: m.b4, "low": lambda m: m.bus[0:4], "high": lambda m: m.bus[2:6], "mid": lambda m: m.bus[1:5],
+                 "rev": lambda m: m.bus[4:0:-1], "cat": lambda m: h.Concat(m.bus[0:2], m.bus[4:6]), "unset": None}
+    idxs = list(range(-4, 4)) + [slice(a, b_, c) for c in (None, -1, 2, -2) for a in (None, 0, 1, 3, -1, -2)
+                                 for b_ in (None, 0, 2, 4, -1, -5)]
+    for rname, ref in referents.items():
+        for idx in idxs:
+            n = len(list(range(4))[idx]) if isinstance(idx, slice) else 1
+            if n == 0:
+                continue
+
+            def b(ref=ref, idx=idx, n=n):
+                T = h.ExternalModule(name="SProbe", port_list=[h.Inout(name="t")], desc="", domain="cc")
+                W = h.ExternalModule(name=f"SWide{n}", port_list=[h.Inout(name="q", width=n)], desc="", domain="cc")
+                Inner = h.Module(name="SInner")
+                Inner.p = h.Port(width=4)
+                Inner.w = h.ExternalModule(name="SWide4", port_list=[h.Inout(name="q", width=4)], desc="", domain="cc")()(q=Inner.p)
+                m = h.Module(name="PSlice")
+                m.bus = h.Signal(width=6)
+                m.b4 = h.Signal(width=4)
+                for k in range(6):
+                    m.add(T()(t=m.bus[k]), name=f"t{k}")
+                for k in range(4):
+                    m.add(T()(t=m.b4[k]), name=f"u{k}")
+                m.i = Inner(p=ref(m)) if ref is not None else Inner()
+                m.j = W()(q=m.i.p[idx])
+                return m
+            yield (f"prefslice/{rname}/{idx!r}", b)
+
+
 def name_pressure_designs():
     """designs whose declared names equal, or compose to, the names elaboration invents (the family of C05): the
     connectivity as written must survive the renaming"""
@@ -243,9 +324,9 @@ def run(ctx):
             ctx.checker_errors.append(f"array rule: only {len(obs)} obligations generated")
         ctx.discharge(obs, c_arrays.KEY + " [per-element loop body]", info)
     ctx.run_bounded(
-        "to_proto-vs-meaning", __import__("itertools").chain(design_family(ctx.tier, ctx.seed), edited_designs(), order_designs(), concat_designs()),
+        "to_proto-vs-meaning", __import__("itertools").chain(design_family(ctx.tier, ctx.seed), edited_designs(), order_designs(), concat_designs(), bundle_ref_designs(), portref_slice_designs()),
         lambda c: check_design(c),
-        rule=RULE + "; plus 60 designs written in several steps (a port re-connected by each of the five operations) and 40 declaration orders of a reference chain ending on slices / concatenations of a driver's ports; every concatenation of two 1-3 bit pieces of a 6-bit bus and every three-piece cut of it in every order (285 designs)", bound="depth<=3, widths<=4 (8 thorough), <=4 (6) instances per module",
+        rule=RULE + "; plus 60 designs written in several steps (a port re-connected by each of the five operations) and 40 declaration orders of a reference chain ending on slices / concatenations of a driver's ports; every concatenation of two 1-3 bit pieces of a 6-bit bus and every three-piece cut of it in every order (285 designs); references to nested bundle members whose names recur at other levels (12); slices of a port REFERENCE for 7 kinds of referent x every index / slice with steps +-1, +-2 (~800)", bound="depth<=3, widths<=4 (8 thorough), <=4 (6) instances per module",
         key_of=lambda c: c[0], nontrivial=lambda c: nontrivial(c[0]))
     ctx.run_bounded("to_proto-vs-meaning under name pressure", name_pressure_designs(), check_named,
                     rule="the designs of C05's adversarial-name family (declared names equal to invented ones in both "
@@ -259,7 +340,8 @@ def replay(payload):
     from rtc.designs import designs
     want = (payload.get("input") or {}).get("design")
     if want:
-        for desc, b in list(edited_designs()) + list(order_designs()) + list(concat_designs()):
+        for desc, b in list(edited_designs()) + list(order_designs()) + list(concat_designs()) + list(bundle_ref_designs()) + \
+                list(portref_slice_designs()):
             if desc == want:
                 r = check_design((desc, b))
                 print("replay:", r)
